@@ -482,6 +482,13 @@ fn check_full_expr(env: &Env, e: &Expr, in_condition: bool, ex: &Excl) -> Option
                     hit = Some("bnot_const");
                 }
             }
+            Expr::Assign(_, lv, r)
+                if ex.has("nested_assign_to_16bit")
+                    && lv_bits(env, lv) == 16
+                    && matches!(&**r, Expr::Assign(_, l2, _) if lv_bits(env, l2) == 8) =>
+            {
+                hit = Some("nested_assign_to_16bit");
+            }
             Expr::Assign(_, lv, r) if ex.has("bnot16") && lv_bits(env, lv) == 16 && contains_bnot(r) => {
                 hit = Some("bnot16");
             }
@@ -810,13 +817,17 @@ fn check_list(env: &mut Env, v: &[Stmt], ex: &Excl) -> Option<&'static str> {
         if ex.has("shift16_keeps_stale_flags") {
             if let Stmt::Expr(Expr::Assign(Some(BinOp::Shl | BinOp::Shr), LValue::Var(n), _)) = s {
                 if env.ty(n).map(|t| t.bits() == 16 && t != Ty::Ptr).unwrap_or(false) {
-                    if let Some(next) = v.get(i + 1) {
-                        let tests = match next {
-                            Stmt::If(..) | Stmt::While(..) | Stmt::DoWhile(..) | Stmt::For(..) | Stmt::Switch(..) => true,
-                            other => first_expr(other).map(has_truth_test).unwrap_or(false),
-                        };
-                        if tests {
-                            return Some("shift16_keeps_stale_flags");
+                    // the stale knowledge survives statements that do not touch the flags
+                    // (register stores): look a few statements ahead
+                    for k in 1..=3 {
+                        if let Some(next) = v.get(i + k) {
+                            let tests = match next {
+                                Stmt::If(..) | Stmt::While(..) | Stmt::DoWhile(..) | Stmt::For(..) | Stmt::Switch(..) => true,
+                                other => first_expr(other).map(has_truth_test).unwrap_or(false),
+                            };
+                            if tests {
+                                return Some("shift16_keeps_stale_flags");
+                            }
                         }
                     }
                 }
